@@ -239,9 +239,11 @@ def generate(loader):
     def fd_stub(data, sdim, mode="forward_central_backward", order=1, dilation=1, spacing=1):
         sp_ = spacing if isinstance(spacing, st.Tensor) else st.tensor(spacing)
         v = sp_.a.reshape(-1)
-        if v.shape[0] != 1:
-            raise TraceError("finite_differences stub: one step size expected")
-        return data / v[0]
+        if v.shape[0] == 1:
+            return data / v[0]
+        if v.shape[0] != data.shape[0]:
+            raise TraceError("finite_differences stub: one step size per image expected")
+        return data / st.Tensor(v.reshape((data.shape[0],) + (1,) * (data.a.ndim - 1)))
 
     class _F:
         @staticmethod
@@ -274,6 +276,20 @@ def generate(loader):
                 vals.append(st.to_coq(v[0]))
             out.append(f"(* spatial_derivatives(mode={mode!r}, spacing=(h0, h1, h2)): spacing divisors of x, y, z, xx, xy, xz, yy, yz, zz *)\n"
                        f"Definition gen_sd_{mode} (h0 h1 h2 x : K) : list K :=\n  [" + ";\n   ".join(vals) + "].\n")
+        # a separate spacing per image of the batch: image 1 must be divided by ITS row (k0, k1, k2), in every mode
+        xs2 = np.empty((2, 1, 1, 1, 1), dtype=object)
+        xs2[0, 0, 0, 0, 0], xs2[1, 0, 0, 0, 0] = E.var("x"), E.var("x")
+        hs2 = st.Tensor(np.array([[E.var("h0"), E.var("h1"), E.var("h2")], [E.var("k0"), E.var("k1"), E.var("k2")]], dtype=object))
+        ren = {"h0": "k0", "h1": "k1", "h2": "k2"}
+        for mode in SD_MODES:
+            d2_ = I.spatial_derivatives(st.Tensor(xs2.copy()), which=KEYS3, mode=mode, spacing=hs2)
+            for k in KEYS3:
+                v = d2_[k].a.reshape(-1)
+                if v.shape[0] != 2:
+                    raise TraceError(f"spatial_derivatives({mode})[{k}] on a batch of two: shape {d2_[k].a.shape}")
+                if not trlib.rename(v[0], ren).same(v[1]):
+                    raise TraceError(f"spatial_derivatives({mode})[{k}]: image 1 of the batch is not divided by its own spacing: "
+                                     f"{st.to_text(v[1])}")
         # the default mode is forward_central_backward
         d0 = I.spatial_derivatives(st.Tensor(xs.copy()), which=["x"], spacing=hs)
         d1 = I.spatial_derivatives(st.Tensor(xs.copy()), which=["x"], mode="forward_central_backward", spacing=hs)
